@@ -30,11 +30,11 @@ class Harness:
     """
     def __init__(self, name, wrapper, fn, jobs=None, mode='BV', setup=None, reach=('end',), tests=None, sanitize=False,
                  wall=600, max_paths=10**7, desc='', bounds='', step_cap=2_000_000, defs=(), opaque_fp=False, native_ok=True,
-                 testgen=None):
+                 testgen=None, qtimeout=90):
         self.name = name; self.wrapper = wrapper; self.fn = fn; self.jobs = jobs or [{}]; self.mode = mode; self.setup = setup
         self.reach = tuple(reach); self.tests = tests or []; self.sanitize = sanitize; self.wall = wall; self.max_paths = max_paths
         self.desc = desc; self.bounds = bounds; self.step_cap = step_cap; self.defs = tuple(defs); self.opaque_fp = opaque_fp
-        self.native_ok = native_ok; self.testgen = testgen
+        self.native_ok = native_ok; self.testgen = testgen; self.qtimeout = qtimeout       # qtimeout: seconds given to the first (incremental z3) attempt at a query
 
 
 # ----------------------------------------------------------------------------- building
@@ -89,7 +89,7 @@ def make_interp(h, ll, known_keys=()):
     from llsym import Interp
     import models
     I = Interp(load_mod(ll), mode=h.mode, step_cap=h.step_cap)
-    I.opaque_fp = h.opaque_fp
+    I.opaque_fp = h.opaque_fp; I.set_query_timeout(h.qtimeout)
     models.install(I)
     I.known_keys = set(known_keys)
     if h.setup: h.setup(I)
@@ -109,6 +109,7 @@ def _worker(task):
         return dict(ok=True, hname=hname, jobi=jobi, findings=findings, left=left, paths=st['paths'], queries=st['queries'], solver_s=st['solver_s'],
                     funcs=sorted(st['funcs']), unsupported=st['unsupported'][:20], n_unsupported=len(st['unsupported']), steps=st['steps'],
                     obligations=st.get('obligations', 0), obl_paths=st.get('obl_paths', 0), reached=dict(I.reached), samples=st.get('samples', []),
+                    cvc5_decided=st.get('cvc5_decided', 0),
                     wall_s=st.get('wall_s', 0))
     except Exception as e:
         return dict(ok=False, hname=hname, jobi=jobi, error='%s: %s\n%s' % (type(e).__name__, e, traceback.format_exc()[-2000:]))
@@ -354,9 +355,10 @@ def run_property(pid, tier, seed, only=None, keep=False, nodiff=False):
             cbmc_ex = TPE(max_workers=max(1, NCPU // 2)); cbmc_futs = [cbmc_ex.submit(one, h) for h in chs]
         # 2. symbolic exploration on a pool with dynamic splitting
         per = {h.name: dict(paths=0, queries=0, solver_s=0.0, funcs=set(), findings=[], unsupported=[], n_unsupported=0, obligations=0, obl_paths=0,
-                            reached={}, samples=[], errors=[], incomplete=0, steps=0) for h in hs}
+                            reached={}, samples=[], errors=[], incomplete=0, steps=0, cvc5_decided=0) for h in hs}
         deadline = {h.name: time.time() + h.wall for h in hs}
         pool = Pool(NCPU)
+        retried = {}
         def submit(h, jobi, workl, mp, wall):
             task = (pid, h.name, jobi, build.ir(h.wrapper, h.defs), workl, mp, wall, known_keys)
             pool.submit((h, jobi), task, wall * 3 + 600)
@@ -370,10 +372,21 @@ def run_property(pid, tier, seed, only=None, keep=False, nodiff=False):
                 p = per[h.name]
                 if os.environ.get('VERIF_VERBOSE'): sys.stderr.write('[%.1f] %s job %d: ok=%s paths=%s left=%s wall=%.1f outstanding=%d\n' % (time.time() - t0, h.name, jobi, r['ok'], r.get('paths'), len(r.get('left') or []), r.get('wall_s', 0), pool.outstanding()))
                 if not r['ok']:
-                    p['errors'].append(r['error'])
                     if os.environ.get('VERIF_VERBOSE'): sys.stderr.write('   error: %s\n' % r['error'])
+                    # a task lost to the hard limit / a dead worker is explored once more, one prefix per task in fresh processes (other solver
+                    # state); whatever is lost a second time is reported as a machinery problem -- never dropped, never counted as explored
+                    if 'lost_work' in r and time.time() < deadline[h.name]:
+                        lw = r['lost_work']; pieces = [None] if lw is None else [[w_] for w_ in lw]
+                        fresh = [c for c in pieces if retried.setdefault((h.name, jobi, repr(c)), 0) == 0]
+                        if len(fresh) == len(pieces):
+                            for c in pieces:
+                                retried[(h.name, jobi, repr(c))] = 1
+                                submit(h, jobi, c, 2000, max(5, min(45, deadline[h.name] - time.time())))
+                            p['retried_tasks'] = p.get('retried_tasks', 0) + 1
+                            continue
+                    p['errors'].append(r['error'])
                     continue
-                for k in ('paths', 'queries', 'solver_s', 'obligations', 'obl_paths', 'n_unsupported', 'steps'): p[k] += r[k]
+                for k in ('paths', 'queries', 'solver_s', 'obligations', 'obl_paths', 'n_unsupported', 'steps', 'cvc5_decided'): p[k] += r[k]
                 p['funcs'].update(r['funcs']); p['unsupported'] += r['unsupported']
                 for f in r['findings']: f['job'] = jobi; p['findings'].append(f)
                 for k, v in r['reached'].items(): p['reached'][k] = p['reached'].get(k, 0) + v
@@ -490,12 +503,12 @@ def run_property(pid, tier, seed, only=None, keep=False, nodiff=False):
             functions_encoded=[demangle_short(f) for f in funcs][:400], functions_encoded_count=len(funcs),
             harnesses=[dict(name=h.name, mode=h.mode, wrapper=h.wrapper, desc=h.desc, bounds=h.bounds, jobs=len(h.jobs), paths=per[h.name]['paths'],
                             queries=per[h.name]['queries'], obligations=per[h.name]['obligations'], solver_s=round(per[h.name]['solver_s'], 2),
-                            reached=per[h.name]['reached'], findings=len(per[h.name]['findings'])) for h in hs],
+                            reached=per[h.name]['reached'], findings=len(per[h.name]['findings']), tasks_rerun_after_loss=per[h.name].get('retried_tasks', 0), queries_decided_by_cvc5=per[h.name]['cvc5_decided']) for h in hs],
             cbmc_harnesses=[dict(name=h.name, function=h.fn, defines=list(h.defines), backend=list(h.backend) or ['sat (cbmc default)'], verdict=r['verdict'], wall_s=round(r['wall'], 1),
                                  properties=r['props'], sat_variables=r.get('vars', 0), sat_clauses=r.get('clauses', 0), witness_twin=w['verdict'], desc=h.desc, bounds=h.bounds) for (h, r, w) in cres],
             differential_inputs_agreeing=diff_ok, counterexamples_replayed=replayed,
             known_findings=[k['key'] for (k, _) in knowns], machinery_problems=machinery, exhaustive=False,
-            engine='llsym (path-wise symbolic execution of clang-14 IR, z3 %s)' % z3ver())
+            engine='llsym (path-wise symbolic execution of clang-14 IR, z3 %s; queries z3 leaves unknown go to the cvc5 binary)' % z3ver())
         ev['assumptions'] = assumptions_for(hs) + ['%s: bounds: %s' % (h.name, h.bounds) for (h, _, _) in cres[:40]]
     except BuildError as e:
         lines.append('MACHINERY: build failed: %s' % e); status = 2
